@@ -127,7 +127,7 @@ pub fn c08() -> EngineProp {
 pub fn c09() -> EngineProp {
     EngineProp {
         id: "C09",
-        oracles: Oracles { converge: true, values: true, structure: true, session: true, ev_once: true, ev_tick: true, ..Default::default() },
+        oracles: Oracles { converge: true, values: true, structure: true, session: true, ev_once: true, ev_tick: true, mutate_ticks: true, ..Default::default() },
         profiles: vec![(Profile::Faults, 60000, 1_200_000), (Profile::Sessions, 80000, 1_600_000)],
         nontrivial: |s| {
             (has(s, "disconnect") || has(s, "server_restart"))
@@ -139,7 +139,7 @@ pub fn c09() -> EngineProp {
         },
         rule: "C01/C04 histories with Disconnect / ServerRestart injected at generated points (whatever is in flight then), reconnect after >=1 frame; \
                oracles: no panic, C02/C03 hold from the first frame of the new session against references that start empty, events carry their session, \
-               no message is produced for a client entity of an ended session, C01 at quiescence. non-trivial = at the injection point something was in flight \
+               no message is produced for a client entity of an ended session, C01 at quiescence; with tracking enabled the mutate-tick tracker is judged per session (C12's end-to-end oracle: nothing of the old session's ticks is reported in the new one). non-trivial = at the injection point something was in flight \
                (updates, mutations, acks, events) or buffered on the server",
         assumptions: vec!["on disconnect the harness, acting as the game, despawns the client's leftover replicated entities (ClientSet::Reset leaves them to the application)"],
     }
